@@ -181,7 +181,9 @@ def fold_semantics(f):
         s = Sym(f, copies=False)
         rows = {}
         found = False
-        for p in lp.iteration_paths(s):
+        its = list(lp.iteration_paths(s))
+        acc_locals = {e[2][0][1] for p in its for e in p.events if e[0] == "call" and e[1] == "action::Action::merge" and e[2][0][0] in ("local", "havoc")}
+        for p in its:
             calls = [e for e in p.events if e[0] == "call" and e[1] == "action::Action::from_route_rule"]
             if not calls:
                 continue
@@ -198,19 +200,14 @@ def fold_semantics(f):
                 elif a == ("field", res, "2", None):
                     stop = bool(v)
             eff = "none"
-            # which named locals hold the payload
+            # which named locals hold the payload (pattern bindings), and which one is the accumulator
+            # (the variable `merge` is called on, in this loop)
             holders = {e[1] for e in p.events if e[0] == "set" and e[3] == payload}
             for e in p.events:
                 if e[0] == "call" and e[1] == "action::Action::merge" and (e[2][1] == payload or (e[2][1][0] == "local" and e[2][1][1] in holders)):
                     eff = "merge"
-                if e[0] == "set" and e[1] not in holders and (e[3] == payload or (e[3][0] == "local" and e[3][1] in holders)):
+                if e[0] == "set" and e[1] in acc_locals and (e[3] == payload or (e[3][0] == "local" and e[3][1] in holders)):
                     eff = "assign"
-                if e[0] == "set" and e[1] in holders and False:
-                    pass
-            # `action = action_rule` after drop elaboration is a plain move into the accumulator local
-            accs = [e for e in p.events if e[0] == "set" and e[3] == payload]
-            if len({e[1] for e in accs}) >= 2:
-                eff = "assign"
             returns = p.end[0] == "ret" or (p.end[0] == "stop" and p.end[1] in lp.tail_blocks() and p.end[1] != lp.exit and lp.exit not in p.blocks)
             rows[(produced, reset, stop)] = (eff, returns)
         if found:
